@@ -99,8 +99,9 @@ type repoOp struct {
 	Doc    *repoDoc // for serve doc
 	Issuer int      // hs: name id of the certificate's issuer (7 or 8)
 	Serial int64
-	CDP    int   // 0 = none
-	Cands  []int // signer ids above the end-entity in the presented chain / trusted signers for provision
+	CDP    int    // 0 = none
+	Cands  []int  // signer ids above the end-entity in the presented chain / trusted signers for provision
+	Sig    string // restartcfg: the signature_validation_mode of the configuration the process restarts with
 }
 
 func natList(l []int) string {
@@ -116,6 +117,8 @@ func natList(l []int) string {
 
 func (o repoOp) line() string {
 	switch o.Kind {
+	case "restartcfg":
+		return "repo restartcfg " + o.Sig
 	case "serve":
 		sv := o.Served
 		if sv == "doc" {
@@ -337,6 +340,13 @@ func (w *repoWorld) apply(o repoOp) string {
 			return "provision-failed " + err.Error()
 		}
 		return w.snapshot()
+	case "restartcfg":
+		w.v.Close()
+		w.cfg.Sig = o.Sig
+		if err := w.provision(); err != nil {
+			return "provision-failed " + err.Error()
+		}
+		return w.snapshot()
 	case "close":
 		chk.VerifRepository().Close()
 		return w.snapshot()
@@ -407,7 +417,11 @@ func (g *repoGen) directed(cfg repoCfg, kind int) []repoOp {
 	tick := repoOp{Kind: "tick"}
 	var ops []repoOp
 	first := func(o repoOp) { ops = append(ops, o) }
-	switch kind % 7 {
+	switch kind % 8 {
+	case 7: // a list taken in while signatures were not enforced, then a restart under 'verify' (disk: the list is found again)
+		ops = append(ops, repoOp{Kind: "restartcfg", Sig: []string{"none", "verify_log"}[rng.Intn(2)]},
+			serve([]int{9, 2, 9}[rng.Intn(3)], 13, 14), hs(7, 13, 1), repoOp{Kind: "restartcfg", Sig: "verify"},
+			hs(7, 13, 1), hs(7, 10, 1), serve(1, 10), tick, hs(7, 10, 1), hs(7, 13, 1))
 	case 6: // a configured CRL, a restart, provisioning again with other trusted signers (disk: the persisted list is re-taken)
 		pl := []int{11, 12}[rng.Intn(2)]
 		t1 := []int{1, 3}[rng.Intn(2)]
@@ -481,7 +495,7 @@ func (g *repoGen) history(cfg repoCfg, n int) []repoOp {
 	rng := g.rng
 	g.hist++
 	if rng.Intn(3) != 0 { // (drawn, not counted: the configuration rotates with the history index)
-		ops = g.directed(cfg, rng.Intn(7))
+		ops = g.directed(cfg, rng.Intn(8))
 		n += len(ops) / 2
 	}
 	cdps := []int{1, 2, 5}
@@ -521,7 +535,11 @@ func (g *repoGen) history(cfg repoCfg, n int) []repoOp {
 		case k < 18:
 			ops = append(ops, repoOp{Kind: "provision", Loc: 11, Cands: [][]int{{1}, {1}, {3}, {}}[rng.Intn(4)]})
 		case k < 19:
-			ops = append(ops, repoOp{Kind: "restart"})
+			if rng.Intn(2) == 0 {
+				ops = append(ops, repoOp{Kind: "restart"})
+			} else {
+				ops = append(ops, repoOp{Kind: "restartcfg", Sig: []string{"verify", "verify", "verify_log", "none"}[rng.Intn(4)]})
+			}
 		default:
 			if rng.Intn(3) == 0 {
 				ops = append(ops, repoOp{Kind: "close"})
